@@ -116,6 +116,37 @@ def dotted(node):
     return None
 
 
+
+class _Canon(ast.NodeTransformer):
+    """Load-time canonical forms, so that rules see one spelling of equivalent statements:
+       t = t <op> v   ->   t <op>= v      (t a name / attribute / subscript chain without calls)
+       t = v + t      ->   t += v         (v a numeric constant)"""
+
+    @staticmethod
+    def _pure(e):
+        if isinstance(e, (ast.Name, ast.Constant)):
+            return True
+        if isinstance(e, ast.Attribute):
+            return _Canon._pure(e.value)
+        if isinstance(e, ast.Subscript):
+            return _Canon._pure(e.value) and _Canon._pure(e.slice)
+        return False
+
+    def visit_Assign(self, node):
+        self.generic_visit(node)
+        if len(node.targets) == 1 and isinstance(node.value, ast.BinOp) and self._pure(node.targets[0]) and not isinstance(node.targets[0], ast.Constant):
+            t, v = node.targets[0], node.value
+            ts = ast.dump(t).replace("Store()", "Load()")
+            if ast.dump(v.left) == ts and isinstance(v.op, (ast.Add, ast.Sub, ast.Mult)):
+                return ast.copy_location(ast.AugAssign(target=t, op=v.op, value=v.right), node)
+            if ast.dump(v.right) == ts and isinstance(v.op, ast.Add) and isinstance(v.left, ast.Constant) and isinstance(v.left.value, (int, float)):
+                return ast.copy_location(ast.AugAssign(target=t, op=v.op, value=v.left), node)
+        return node
+
+
+def _canonicalise(tree):
+    return ast.fix_missing_locations(_Canon().visit(tree))
+
 class Index:
     def __init__(self, repo=None, overlay=None):
         self.repo = repo or REPO
@@ -145,7 +176,7 @@ class Index:
                     with open(path, encoding="utf-8") as f:
                         src = f.read()
                 try:
-                    tree = ast.parse(src, filename=rel)
+                    tree = _canonicalise(ast.parse(src, filename=rel))
                 except SyntaxError as exc:
                     raise AnalysisError("index", f"{rel} does not parse: {exc}")
                 parts = rel[:-3].split(os.sep)
